@@ -261,10 +261,18 @@ func main() {
 		fp = fmt.Sprintf("%s|%s|%d|%d|%d", a, b, fs.DatFileSize, fs.IdxFileSize, fs.FileCount)
 		return fp, a != "absent"
 	}
+	extraQuery := ""
 	do := func(method, path string, body []byte, token string, hasTok bool, via string) (*http.Response, []byte) {
 		u := "http://" + vurl + path
 		if hasTok && via == "query" {
 			u += "?jwt=" + url.QueryEscape(token)
+		}
+		if extraQuery != "" { // further query parameters any client may add (type=replicate, ...): access control must not depend on them
+			if strings.Contains(u, "?") {
+				u += "&" + extraQuery
+			} else {
+				u += "?" + extraQuery
+			}
 		}
 		var rd *bytes.Reader
 		if body != nil {
@@ -326,6 +334,7 @@ func main() {
 			tok, _ := e["tok"].(map[string]interface{})
 			text, has := buildToken(tok, t)
 			path := pathOf(t, tr.S(e, "form"))
+			extraQuery, _ = e["q"].(string)
 			before, _ := fingerprint(t)
 			var resp *http.Response
 			var body []byte
@@ -363,7 +372,7 @@ func main() {
 			data := bytes.Contains(body, []byte(marker)) || resp.Header.Get("ETag") != "" ||
 				resp.Header.Get("Last-Modified") != "" || resp.Header.Get("Content-MD5") != "" ||
 				(tr.S(e, "op") == "head" && resp.StatusCode == 200 && resp.ContentLength > 0)
-			w.Emit(tr.Ev{"ev": "op", "op": tr.S(e, "op"), "form": tr.S(e, "form"), "via": tr.S(e, "via"), "tok": tok,
+			w.Emit(tr.Ev{"ev": "op", "op": tr.S(e, "op"), "form": tr.S(e, "form"), "via": tr.S(e, "via"), "tok": tok, "q": extraQuery,
 				"res": tr.Ev{"st": resp.StatusCode, "cls": cls, "data": data, "changed": before != after, "present": presentAfter}})
 		}
 	}
